@@ -35,6 +35,8 @@ type Config struct {
 	// with "verif"/"Verif" or listed in MergeFuncs): those are meant to be folded into one term.
 	OracleMergeBudget int64
 	MergeFuncs        map[string]bool
+	Fallback          string // comma-separated solver kinds asked (one-shot) when the primary answers unknown
+	FallbackTimeoutMs int
 }
 
 func (e *Exec) isOracleFunc(fn *ssa.Function) bool {
@@ -303,6 +305,17 @@ func (e *Exec) check(st *State, extra *term.Term) (smt.Result, *term.Model) {
 		ex = []*term.Term{extra}
 	}
 	res, m := e.solver.Check(as, ex, st.nondet)
+	if res == smt.Unknown && e.cfg.Fallback != "" {
+		// second opinion from another solver, one-shot (the two z3 releases and cvc5 have different blind spots)
+		all := append(append([]*term.Term(nil), as...), ex...)
+		for _, fb := range strings.Split(e.cfg.Fallback, ",") {
+			res, m = smt.OneShot(fb, e.ts, all, st.nondet, e.cfg.FallbackTimeoutMs)
+			e.QueryKinds["fallback:"+fb+"/"+res.String()]++
+			if res != smt.Unknown {
+				break
+			}
+		}
+	}
 	if res == smt.Sat {
 		if m == nil {
 			m = map[string]uint64{}
